@@ -209,6 +209,7 @@ class Kernel:
         if f == "_mm_load_ss": return r("Intr.load_ss z a %d" % self.srcptr(a[0], 1))
         if f == "_mm_load_sd": return r("Intr.load_sd z a %d" % self.srcptr(a[0], 1))
         if f == "_mm_loadl_pi": return r("Intr.loadl_pi z %s a %d" % (R(a[0]), self.srcptr(a[1], 2)))
+        if f == "_mm_loadul3_ps": return r("Intr.loadul3_ps z a %d" % self.srcptr(a[0], 3))     # extintrin.h helper
         if f == "_mm_setzero_ps": return r("Intr.setzero z 4")
         if f == "_MM_SHUFFLE": return ("int", (I(a[0]) << 6) | (I(a[1]) << 4) | (I(a[2]) << 2) | I(a[3]))
         two = {"_mm_unpacklo_ps": "unpacklo_ps", "_mm_unpackhi_ps": "unpackhi_ps", "_mm_movelh_ps": "movelh_ps", "_mm_movehl_ps": "movehl_ps",
@@ -261,7 +262,7 @@ class Kernel:
             vals = [int(x, 0) for x in toks[eq + 1:] if re.fullmatch(r"0[xX][0-9a-fA-F]+|\d+", x)]
             self.tables[name] = vals; return
         stores = {"_mm_storeu_ps": 4, "_mm_storeu_pd": 2, "_mm256_storeu_ps": 8, "_mm256_storeu_pd": 4, "_mm512_storeu_ps": 16, "_mm512_storeu_pd": 8,
-                  "_mm_store_ss": 1, "_mm_store_sd": 1, "_mm_storel_pi": 2}
+                  "_mm_store_ss": 1, "_mm_store_sd": 1, "_mm_storel_pi": 2, "_mm_storeul3_ps": 3}
         head = toks[0].replace("internal::", "")
         if head in stores and toks[1] == "(":
             self.t = toks; self.p = 2
